@@ -47,7 +47,7 @@ BOUNDS = {
     "thorough": {"groups": ["hdr", "auth", "userinfo", "secgen"],
                  "spellings": ["lower", "upper", "title", "alt", "swapsep", "swapsep_upper"],
                  "configs": ["on", "off", "keys", "markers", "replacement", "extend"],
-                 "phases": ["fuzzing", "examples,coverage,fuzzing,stateful"], "workers": [1, 2], "cli_runs": 264,
+                 "phases": ["fuzzing", "examples,coverage,fuzzing,stateful"], "workers": [1, 2], "cli_runs": 368,
                  "curl_spellings": 6, "curl_configs": 6, "curl_locations": 3},
 }
 BUDGET_S = {"quick": 140, "thorough": 2400}
